@@ -117,6 +117,9 @@ B_rate(ev) == ev.gap = -1 \/ ev.gap >= P.interval - Slack                       
 B_dir(ev, e) == (ev.toserver = 1) <=> (e = "c")                                        \* C03: direction byte separates the two nonce spaces
 
 
+\* C01: a datagram that was not produced with the session key (bit-flipped / truncated / re-typed copy, forged plaintext with a valid CRC,
+\* wrong-key ciphertext, random bytes), injected at this point of the history: discarded, nothing but the dropped counter moves
+F_noeffect(ev) == ev.res \in {"false", "hdr"} /\ ev.changed = <<>> /\ ev.cbs = 0 /\ ev.acked = 0 /\ ev.timedout = 0
 \* nothing was built although messages are queued: none of them may fit an empty datagram (else it is stuck for ever)
 K_notstuck(ev) == ev.capped = 1 \/ \A i \in DOMAIN ev.left : ev.left[i] + 2 > Area          \* C05/C09
 \* packet construction raised: never acceptable (C09)
@@ -267,6 +270,7 @@ Clauses ==
              [] c = "B_known" -> B_known(ev, ev.e) [] c = "B_together" -> B_together(ev) [] c = "B_sealed" -> B_sealed(ev) [] c = "B_aad" -> B_aad(ev)
              [] c = "B_sec" -> B_sec(ev) [] c = "B_rate" -> B_rate(ev) [] c = "B_dir" -> B_dir(ev, ev.e)}
     ELSE IF ev.ev = "skip" THEN (IF K_notstuck(ev) THEN {} ELSE {"K_notstuck"})
+    ELSE IF ev.ev = "forge" THEN (IF F_noeffect(ev) THEN {} ELSE {"F_noeffect"})
     ELSE IF ev.ev = "builderr" THEN {"B_noraise"}
     ELSE IF ev.ev = "timeouts" THEN
        {c \in {"R_pend", "R_time", "R_cbs", "R_true"} :
